@@ -888,12 +888,17 @@ def main(ctx):
         '__awake__ results are observed by an instance-level wrapper that '
         'delegates to Routine.__awake__']
     quick = ctx.tier == 'quick'
-    nb = len(life_bodies('quick' if quick else 'thorough'))
-    ctx.extra['life_bodies'] = nb
-    histbfs.run(ctx, MODNAME, 'life',
-                {'set': 'quick' if quick else 'thorough'},
-                depth=(1 + 8) if quick else (1 + 8), batch=24,
-                label='life: body + operations')
+    ctx.extra['life_bodies_quick_set'] = len(life_bodies('quick'))
+    if quick:
+        histbfs.run(ctx, MODNAME, 'life', {'set': 'quick'}, depth=1 + 8,
+                    batch=24, label='life: quick body set + <= 8 operations')
+    else:
+        ctx.extra['life_bodies_thorough_set'] = len(life_bodies('thorough'))
+        histbfs.run(ctx, MODNAME, 'life', {'set': 'quick'}, depth=1 + 10,
+                    batch=24, label='life: quick body set + <= 10 operations')
+        histbfs.run(ctx, MODNAME, 'life', {'set': 'thorough'}, depth=1 + 6,
+                    batch=24,
+                    label='life: thorough body set + <= 6 operations')
     for cfg in sorted(COND_CONFIGS):
         histbfs.run(ctx, MODNAME, 'cond', {'config': cfg},
                     depth=12 if quick else 20, batch=24,
